@@ -5,7 +5,7 @@ from abc import ABC
 from copy import deepcopy
 
 from cisco_acl import helpers as h
-from cisco_acl.types_ import DAny, DLStr, DStr, LDAny, LStr, OLStr
+from cisco_acl.types_ import DAny, DDAny, DLStr, DStr, LDAny, LStr, OLStr
 
 
 class ConfigParser(ABC):
@@ -295,18 +295,18 @@ class ConfigParser(ABC):
             if not intf_name.startswith("interface "):
                 raise ValueError("invalid interface")
             if access_group_t := re.findall(r"ip access-group (\S+) (\S+)", intf_cfg):
-                acl_name = access_group_t[0][0]
-                data: DAny = dict(name=acl_name, input="", output="")
+                data_d: DDAny = {}  # one record per ACL name, an interface can have 2 different ACLs
                 for acl_name, direction in access_group_t:
                     if not acl_name:
                         raise ValueError(f"absent access-group {acl_name=}")
                     if direction not in ["in", "out"]:
                         raise ValueError(f"invalid access-group {direction=}")
+                    data: DAny = data_d.setdefault(acl_name, dict(name=acl_name, input="", output=""))
                     if direction == "in":
                         data.update(dict(input=intf_name))
                     elif direction == "out":
                         data.update(dict(output=intf_name))
-                access_groups.append(data)
+                access_groups.extend(data_d.values())
         return access_groups
 
     def _get_indented_dic(self, i, config_l) -> tuple:
